@@ -226,6 +226,11 @@ def run_pps(F, R, rule, entry_names, kinds, cha_crates, registry_names=None, arm
     n_fns = 0
     n_sites = 0
     hist = Counter()
+    from .pps import wide_usize_sources
+    Discharger.WIDE_USIZE_SOURCES = wide_usize_sources(F, crate_scope or cha_crates)
+    R.assumptions.append("size rule: usize fields/arguments are lengths, indices or numbers below 2^32 — no str::parse/from_str into a 64-bit type and no "
+                         "u64/i64 -> usize cast in the crates in scope (checked on this run: %d such sites%s)" % (
+                             len(Discharger.WIDE_USIZE_SOURCES), "" if not Discharger.WIDE_USIZE_SOURCES else "; size rule restricted: " + "; ".join(Discharger.WIDE_USIZE_SOURCES[:3])))
     # pass A: enumerate, apply the automatic discharge rules
     work = []   # (fid, fn, D, site) still open after the automatic rules
     for fid in sorted(seen):
@@ -295,6 +300,10 @@ def run_pps(F, R, rule, entry_names, kinds, cha_crates, registry_names=None, arm
             chain = cg.chain(seen, fid, limit=6)
             R.violation(rule, inst, "potential panic (%s %s) in %s `%s` is reachable from %s (%s) and not discharged by any guard, type or audited argument%s" % (
                 s.kind, s.what, fn.name, s.snip[:90], entry_names[0], " <- ".join(reversed(chain[-4:])), what), s.loc, detail={"snip": s.snip})
+    if os.environ.get("TXV_DUMP_USED"):
+        with open(os.environ["TXV_DUMP_USED"], "a") as fh:
+            for inst in sorted(used):
+                fh.write(json.dumps({"property": R.pid, "site": inst, "entry": site_to_entry.get(inst)}) + "\n")
     R.floor(rule, "functions reachable from the entry points", n_fns, floor_fns)
     R.floor(rule, "potential-panic sites examined", n_sites, floor_sites)
     R.extra.setdefault("pps", {})[rule] = {"reachable_fns": len(seen), "fns_in_scope": n_fns, "sites": n_sites, "discharge_histogram": dict(hist),
